@@ -216,6 +216,7 @@ enum TokenFault {
     TF_BAD_TERNARY,    // a conditional whose branches are a channel and an integer (the error is rooted at the ?: node)
     TF_OVERFLOW_LITERAL,  // a number replaced by an integer literal beyond INT_MAX
     TF_CHAN_OPERAND,   // a number replaced by a channel name (an ill-typed operand or argument)
+    TF_CHAN_TO_INT,    // "urgent broadcast chan c" -> "urgent broadcast int c": a prefix that does not fit the type
     TF_COUNT
 };
 const char* token_fault_name(int);
